@@ -327,6 +327,9 @@ func (ex *Exec) vsymAssert(st *State, fr *Frame, dst ssa.Value, c *Term, msg str
 }
 
 func (ex *Exec) recordAccess(st *State, fr *Frame, p Ptr, write bool) {
+	if ex.hbOn {
+		ex.hbAccess(st, fr, p, write)
+	}
 	if st.track == 0 {
 		return
 	}
